@@ -93,6 +93,28 @@ def _replay_pose(data):
             d1, d2 = m1.atomic_shape_descriptors(l_max=4), m2.atomic_shape_descriptors(l_max=4)
             if not close(d1[perm], d2):
                 bad.append("atomic shape descriptors depend on atom order / translation (Z=%s)" % ZZ.tolist())
+    elif which == "moved":
+        axis = np.array([1.0, 2.0, 3.0]) / np.sqrt(14.0)
+        K = np.array([[0, -axis[2], axis[1]], [axis[2], 0, -axis[0]], [-axis[1], axis[0], 0]])
+        R = np.eye(3) + np.sin(1.1) * K + (1 - np.cos(1.1)) * K @ K
+        P0 = P + np.array([3.0, 2.0, 1.5])          # not centred at the origin, so a rotation about the origin moves the centroid
+        for kw in ({}, {"with_property": "d_norm"}):
+            for tag, move in (("rotate(R)", lambda m: m.rotate(R)), ("transform(rotation=R, translation=t)", lambda m: m.transform(rotation=R, translation=t)),
+                              ("translate(t)", lambda m: m.translate(t)), ("rotated(R) copy", lambda m: m.rotated(R)), ("positions reassigned", lambda m: setattr(m, "positions", m.positions @ R.T + 1.0))):
+                mol = Molecule.from_arrays(Z, P0.copy())
+                mol.shape_descriptors(l_max=4, **kw)
+                mol.centroid, mol.center_of_mass
+                out = move(mol)
+                mol = out if isinstance(out, Molecule) else mol
+
+                def d_(m):
+                    try:
+                        return np.asarray(m.shape_descriptors(l_max=4, **kw), float)
+                    except ValueError as e:
+                        return "ValueError"
+                a, b = d_(mol), d_(Molecule.from_arrays(Z, np.array(mol.positions, float).copy()))
+                if isinstance(a, str) != isinstance(b, str) or (not isinstance(a, str) and (a.shape != b.shape or not np.allclose(a, b, rtol=0, atol=1e-6))):
+                    bad.append("shape_descriptors(%s) of a molecule described before and then moved by %s differs from that of a fresh molecule at the same coordinates" % (kw, tag))
     elif which == "crystal":
         # the same crystal described with its origin moved along the polar axis (Pna2_1: z is free)
         from chmpy.crystal import Crystal, AsymmetricUnit
@@ -331,7 +353,17 @@ def part_molecule(ctx):
         mol = mm.Molecule([Element[8], Element[1], Element[17]], P)
         ex = Explorer()
         ex.run(lambda: mol.shape_descriptors(l_max=4, with_property="d_norm"))
-        ok = len(calls) == 1 and calls[0][0] == "pro" and list(calls[0][2]) == [8, 1, 17] and calls[0][3] is P and calls[0][4] == {"with_property": "d_norm"}
+        ok = len(calls) == 1 and calls[0][0] == "pro" and list(calls[0][2]) == [8, 1, 17] and calls[0][3] is P
+        if ok:
+            kw = dict(calls[0][4])
+            org = kw.pop("origin", None)
+            ok = kw == {"with_property": "d_norm"}
+            if ok and org is not None:
+                # an explicit origin is the descriptor's default (the mean position) written out: decided by the solver
+                org = np.asarray(org, dtype=object).ravel()
+                r = ctx.query("Molecule.shape_descriptors: an origin handed to the descriptor is the mean atomic position", [],
+                              z3.And([(Sym._lift(org[k]) * 3 == P[0, k] + P[1, k] + P[2, k]).t for k in range(3)]) if len(org) == 3 else z3.BoolVal(False))
+                ok = r.verdict == "holds"
         ctx.record("Molecule.shape_descriptors: passes all atomic numbers and positions (and keyword options) to the promolecule descriptor", "holds" if ok else "counterexample", nontrivial=True)
         bad = not ok
         # atomic descriptors for a molecule and for the same molecule with its atoms listed in reverse: per-atom calls must coincide
@@ -389,6 +421,17 @@ def part_molecule(ctx):
             bad = bad or not okk
         if bad:
             ctx.violation("pose:atomic", "Molecule shape descriptor entry points depend on atom order or drop options", {"which": "atomic"}, replay_pose)
+    finally:
+        shp.SHT, shp.promolecule_density_descriptor, shp.stockholder_weight_descriptor = o1, o2, o3
+    # histories on one object (real classes, ground instances): a molecule described once, then moved in place, is described as a
+    # fresh molecule at the same coordinates is
+    r, det = replay_pose({"which": "moved"})
+    ctx.record("Molecule.shape_descriptors of a molecule that was described before and then rotated / transformed / translated in place equals that of a fresh molecule at the same coordinates",
+               "counterexample" if r else "holds", nontrivial=True, method="ground instances")
+    if r:
+        ctx.violation("pose:moved", det[0], {"which": "moved"}, replay_pose)
+    try:
+        pass
     finally:
         shp.SHT, shp.promolecule_density_descriptor, shp.stockholder_weight_descriptor = o1, o2, o3
 
